@@ -605,6 +605,8 @@ def parabola_vertex(repo, rep):
 
 
 def run(repo, rep, tier):
+    from .round7b import hygiene
+    hygiene(repo, rep, "C02", ('wavespectra.specarray', 'wavespectra.core.xrstats', 'wavespectra.core.npstats'), falsy=True)
     rep.rule("R-C02-12", "(shared with C06) no statistic changes the length of a spectral axis depending on the data (dropna / where(drop=True)): the peak index "
                          "is positional on the full frequency axis")
     from .round7 import no_data_dependent_shape
